@@ -172,6 +172,11 @@ let handle (line : string) : string =
                   (match String.split_on_char ':' g with [a; b] -> Some (zi a, zi b) | _ -> failwith "grp")) (String.split_on_char '+' s)) in
       let pats s = List.map (fun e -> match String.split_on_char '/' e with [a; b] -> (res a, res b) | _ -> failwith "pat") (split ',' s) in
       enc_bool (run_realpath tb (dec_str filename) (pats incl) (pats excl) (dec_bool follow) (dec_str root))
+  | ["windrive"; cs; p] ->
+      (* root|regex text or -|plain text or -|slash|end *)
+      let (((rs, d), sl), e) = get_win_drive (dec_str p) in
+      let opt = function None -> "N" | Some t -> "S" ^ enc_str t in
+      Printf.sprintf "%s|%s|%s|%s|%d" (enc_bool rs) (opt (drive_regex (dec_bool cs) d)) (opt (drive_plain d sl)) (enc_bool sl) (int_of_n e)
   | ["escape"; isb; p] -> enc_str (escape (dec_bool isb) (dec_str p))
   | ["ismagic"; isb; fl; p] -> enc_bool (is_magic (dec_bool isb) (z_of_int (int_of_string fl)) (dec_str p))
   | ["wcwalk"; follow; aborted; root; lst; lk; vfo; vfi; mk; sk] ->
